@@ -14,6 +14,12 @@ def blocking_combos(k):
     return list(itertools.product([True, False], repeat=k))
 
 
+def fanins():
+    """fan-in values enumerated: 0..2 on every change, 0..3 in the thorough tier"""
+    import os
+    return (0, 1, 2, 3) if os.environ.get("VERIF_TIER") == "thorough" else (0, 1, 2)
+
+
 def mk_node_world(ctx, cfg, with_step_state=False):
     w = World(ctx, cfg.get("clock", "SIMULATED"))
     n = w.node("n", state=cfg.get("state", "RUNNING"), advance=cfg.get("advance", False), scheduling=cfg.get("scheduling", "FREQUENCY"), rs=cfg.get("rs"),
@@ -45,7 +51,7 @@ class PushScheduledTs(Unit):
     props = ("C02", "C03", "C04")
 
     def configs(self):
-        for k in (0, 1, 2):
+        for k in fanins():
             for combo in blocking_combos(k):
                 yield f"fanin={''.join('B' if b else 'N' for b in combo) or '-'}", dict(fanin=combo)
 
@@ -109,7 +115,7 @@ class PushPhaseShift(Unit):
         for clock in ("SIMULATED", "WALL_CLOCK"):
             for sched in ("FREQUENCY", "PHASE"):
                 for adv in (False, True):
-                    for k in (0, 1, 2):
+                    for k in fanins():
                         for combo in blocking_combos(k):
                             for state in ("RUNNING", "STOPPING"):
                                 if state == "STOPPING" and (k != 1 or clock != "SIMULATED"):
